@@ -57,7 +57,7 @@ def renderPeer (p : PeerEntry) : String :=
 
 def render : Result → String
   | .error => "err"
-  | .errorAppended _ => "erra"
+  | .errorAppended _ => "err"   -- the statement does not say when the failure is noticed
   | .panic => "panic"
   | .ok e _ sg =>
     let ps := if e.peers.isEmpty then "-" else String.intercalate "," (e.peers.map renderPeer)
